@@ -352,6 +352,28 @@ func groupZeroishDefaults() {
 	o.add("LV", list(sref(z)), 5, "default")
 }
 
+// optional pointer fields to which the initialiser assigns a non-nil pointer (a default through a
+// pointer): such a field is written whenever it is non-nil, whatever it points to
+func groupPointerDefaults() {
+	z := newStruct("defaults")
+	z.HasInit = true
+	f := z.add("A", ptr(prim("string")), 1, "optional")
+	f.Dflt, f.DfltVal = `func() *string { s := ""; return &s }()`, "P(s)"
+	z.add("B", ptr(prim("string")), 2, "optional")
+	f = z.add("C", ptr(prim("bool")), 3, "optional")
+	f.Dflt, f.DfltVal = `func() *bool { b := true; return &b }()`, "P(n1)"
+	z.add("D", ptr(prim("int64")), 4, "optional")
+	f = z.add("E", ptr(prim("int8")), 5, "optional")
+	f.Dflt, f.DfltVal = `func() *int8 { b := int8(0); return &b }()`, "P(n0)"
+	f = z.add("F", ptr(binary()), 6, "optional")
+	f.Dflt, f.DfltVal = `func() *[]byte { b := []byte{}; return &b }()`, "P(b)"
+	z.add("G", ptr(prim("string")), 7, "optional")
+	o := newStruct("defaults")
+	o.add("P", ptr(sref(z)), 1, "optional")
+	o.add("V", sref(z), 2, "default")
+	o.add("L", list(ptr(sref(z))), 3, "default")
+}
+
 func elemForms() []*Ty {
 	return []*Ty{prim("bool"), prim("int8"), prim("int16"), prim("int32"), prim("int64"), prim("float64"),
 		enumTy, prim("string"), binary(), ptr(sref(leaf)), sref(leaf),
@@ -1334,6 +1356,7 @@ func main() {
 	groupLeaves()
 	groupScalars()
 	groupZeroishDefaults()
+	groupPointerDefaults()
 	groupLists()
 	groupMaps()
 	groupRecursive()
